@@ -47,25 +47,28 @@ SD == [t |-> 3, dt |-> 1, count |-> 7]
 
 \* ---- the universe of arrays ----------------------------------------------
 \* n particles of which the first nl are Local (aligned), the others Ghost;
-\* values identify (property, particle, component)
-MkArr(n, nl, tp, sp, sq, dp, dq, outs) ==
+\* values identify (property, particle, component); as in recorded cases
+\* every value but the tags is a text
+MkArr(n, nl, tp, sp, sq, dp, dq, dtag, outs) ==
     LET stride == [tag |-> 1, p |-> sp, q |-> sq]
         base   == [tag |-> 0, p |-> 10, q |-> 20]
     IN [type   |-> [tag |-> "int", p |-> tp, q |-> "double"],
         stride |-> stride,
-        dflt   |-> [tag |-> 0, p |-> dp, q |-> dq],
+        dflt   |-> [tag |-> dtag, p |-> ToString(dp), q |-> ToString(dq)],
         len    |-> [x \in PNames |-> n * stride[x]],
         data   |-> [x \in PNames |->
                       IF x = "tag" THEN [i \in 1..n |-> IF i <= nl THEN 0 ELSE 1]
-                      ELSE [i \in 1..(n * stride[x]) |-> base[x] + i]],
-        consts |-> [c |-> <<5, 6>>],
+                      ELSE [i \in 1..(n * stride[x]) |-> ToString(base[x] + i)]],
+        consts |-> [c |-> <<"5", "6">>],
         outs   |-> outs,
         nreal  |-> nl]
 
-Arrays == {MkArr(n, nl, tp, sp, sq, dp, dq, outs) :
+\* dtag: default_particle_tag (the default of the built-in tag property,
+\* which exists before any add_property of the loaders)
+Arrays == {MkArr(n, nl, tp, sp, sq, dp, dq, dtag, outs) :
              n \in 0..MaxN, nl \in 0..MaxN, tp \in {"double", "int"},
              sp \in Strides, sq \in Strides, dp \in Dflts, dq \in Dflts,
-             outs \in SUBSET PNames}
+             dtag \in {0, 1}, outs \in SUBSET PNames}
 Valid == {a \in Arrays : a.nreal <= N(a)}
 
 Empty == [none |-> TRUE]
@@ -113,7 +116,7 @@ CountLocal(q) == Cardinality({i \in DOMAIN q : q[i] = Local})
 \* default was passed, hasdata = data was passed (not None)
 AddProp(b, name, typ, hasd, dfl, stride, hasdata, data) ==
     LET ex  == name \in DOMAIN b.type
-        d   == IF hasd THEN dfl ELSE IF ex THEN b.dflt[name] ELSE 0
+        d   == IF hasd THEN dfl ELSE IF ex THEN b.dflt[name] ELSE "0"
         \* an existing carray keeps its C type
         ty  == IF ex THEN b.type[name] ELSE typ
         b1  == [b EXCEPT !.type = Ext(b.type, name, ty),
@@ -251,9 +254,12 @@ AsIsClassified ==
       /\ Unexplained(TheCase) = {}
       /\ opt.fmt = "npz" => Failed(TheCase) = {}
 \* properties that were not stored come back filled with their default
-\* (more than the property statement demands; holds for the repaired design)
+\* (more than the property statement demands; holds for the repaired design.
+\* Not for the built-in tag: it exists before the loaders add anything, so a
+\* tag column that was not stored is filled with Local by the hdf5 loader
+\* even when default_particle_tag is another tag - found by this model)
 NotStoredAreDefault ==
     phase = "loaded" /\ Failed(TheCase) = {} =>
-      \A x \in Names(arr) \ StoredCols(arr, opt.detailed) :
+      \A x \in (Names(arr) \ StoredCols(arr, opt.detailed)) \ {"tag"} :
         ld.data[x] = Rep(arr.dflt[x], N(ld) * arr.stride[x])
 =============================================================================
